@@ -547,7 +547,7 @@ static void dfs(int depth)
     }
     if (nen == 0) {
         char d[400] = ""; for (t = 0; t < SC->nthreads; t++) if (!T[t].finished) { char d1[120]; describe(t, d1, sizeof d1); snprintf(d + strlen(d), sizeof d - strlen(d), "[%s] ", d1); }
-        sx_fail("no thread can make progress (a thread waits forever): %s", d); record_violation(depth); return;
+        sx_fail("no thread can make progress (a thread waits forever): %s", d); if (failed) record_violation(depth); return;      /* (filtered out when only abort() is being judged) */
     }
     race_check(); ST->races_checked++;
     if (failed) { record_violation(depth); return; }
